@@ -126,8 +126,12 @@ def _slice(view, info):
     return (view.bitval >> s) & ((1 << n) - 1), True
 
 
-def _byte_order(view_struct_module_default, f):
-    return f.byte_order or view_struct_module_default
+def _bo(view, f):
+    """Effective byte order of field `f` of the structure `view` looks at, as documented
+    (language-reference.md, "byte_order" and "$default"): the field's own `[byte_order]`, else the
+    `[$default byte_order]` of the type the field is declared in, else the module's `$default`.
+    Computed here from the generator's description — never from the compiler's IR."""
+    return f.byte_order or getattr(view.struct, "default_byte_order", None) or _DEFAULT_BO[0]
 
 
 _DEFAULT_BO = ["LittleEndian"]
@@ -157,7 +161,7 @@ def _subview(view, info):
             else:
                 nb = info["size"] * view.unit
                 if view.unit == 8:
-                    val = _to_int(got, f.byte_order or _DEFAULT_BO[0]) if complete else None
+                    val = _to_int(got, _bo(view, f)) if complete else None
                 else:
                     val = got if complete else None
                 r = _View(f.struct, args, 1, exists=got is not None, bitval=val, nbits=nb)
@@ -175,7 +179,7 @@ def _scalar_raw(view, info, f, bits_override=None):
     if not complete:
         return None
     if view.unit == 8:
-        return _to_int(got, f.byte_order or _DEFAULT_BO[0])
+        return _to_int(got, _bo(view, f))
     return got
 
 
@@ -343,7 +347,7 @@ def _obs_array(view, info, f):
             sv = _View(el.struct, [ev(view, a) for a in el.args], 8, data=chunk)
             elems.append(observe_view(sv))
         else:
-            raw = _to_int(chunk, f.byte_order or _DEFAULT_BO[0])
+            raw = _to_int(chunk, _bo(view, f))
             v = _decode(el.kind, raw, el.bits, el)
             elems.append({"k": "leaf", "ok": v is not None, "complete": True,
                           "value": _fmt(v) if v is not None else None})
